@@ -193,6 +193,20 @@ def replay_map(a):
 
 
 # ------------------------------------------------------------------ pipeline
+def _failing_calls(HC, msg, H):
+    """history (results and exceptions ignored): hash-to-curve entry points asked things they refuse"""
+    opt = importlib.import_module("py_ecc.optimized_bls12_381")
+    bad = [lambda: HC.hash_to_G2(msg, b"t" * 256, H), lambda: HC.hash_to_G1(msg, b"t" * 256, H),
+           lambda: HC.hash_to_G2(None, b"tag", H), lambda: HC.map_to_curve_G2(None), lambda: HC.map_to_curve_G1(None),
+           lambda: HC.map_to_curve_G2(opt.FQ(3)), lambda: HC.map_to_curve_G1(opt.FQ2([1, 2])),
+           lambda: HC.clear_cofactor_G2(opt.G1), lambda: HC.hash_to_G2(msg, b"tag", None)]
+    for f in bad:
+        try:
+            f()
+        except Exception:  # noqa: BLE001
+            pass
+
+
 def pipe_case(group, msg, dst, hn):
     HC = _hc()
     cfg = _cfg(group)
@@ -207,6 +221,7 @@ def pipe_case(group, msg, dst, hn):
         return ("long-tag-accepted", "an exception", "returned a point")
     exp = h2c.hash_to_curve("G1" if group == "E1" else "G2", msg, dst, hn)
     assert S.E.on_curve(exp) and S.E.mul(exp, params.BLS_R) is None  # model: lands in the subgroup
+    _failing_calls(HC, msg, H)
     try:
         got = lib.opt_norm(cfg, f(msg, dst, H))
     except Exception as e:  # noqa: BLE001
